@@ -308,11 +308,42 @@ func (g *Gen) genPut() *eng.Tx {
 			break
 		}
 	}
+	if g.chance(g.P.Extreme * 4) {
+		// the largest holding of an admissible class (very large amounts)
+		var bestKey obs.BalKey
+		for k, bal := range g.V.Balances {
+			if bal.T == nil || h.T == nil {
+				continue
+			}
+			c := bal.T.Cmp(h.T)
+			// strictly larger, or equal with a smaller key: independent of map iteration order
+			if c < 0 || (c == 0 && !(k.BatchKey < bestKey.BatchKey || (k.BatchKey == bestKey.BatchKey && k.Addr < bestKey.Addr))) {
+				continue
+			}
+			if bb := g.V.Batches[k.BatchKey]; bb != nil {
+				if cl := g.V.ClassOfBatch(bb); cl != nil && g.V.BasketClasses[bk.Id][cl.Id] {
+					h, bestKey = bal, k
+				}
+			}
+		}
+	}
 	owner := obs.Addr(h.Row.Address)
 	m.Owner = g.owner(owner)
 	b := g.V.Batches[h.Row.BatchKey]
 	if b == nil {
 		return nil
+	}
+	if h.T != nil && h.T.Cmp(new(big.Rat).SetInt(ref.Pow10(30))) > 0 && g.chance(0.3) {
+		// one long amount written with a trailing zero: 30+ integer digits and five significant
+		// decimals, i.e. more than 34 significant digits even after the zero is dropped
+		f := new(big.Rat).Mul(h.T, big.NewRat(int64(10+g.R.Intn(85)), 100))
+		a := ratToDec(f, 0)
+		if i := strings.IndexByte(a, '.'); i >= 0 {
+			a = a[:i]
+		}
+		a += fmt.Sprintf(".%04d%d0", g.R.Intn(10000), 1+g.R.Intn(9))
+		m.Credits = append(m.Credits, &baskettypes.BasketCredit{BatchDenom: b.Denom, Amount: a})
+		return tx(m)
 	}
 	if h.T != nil && h.T.Cmp(new(big.Rat).SetInt(ref.Pow10(28))) > 0 && g.chance(0.5) {
 		// wide-sum put: a very large entry and a smallest-unit entry of the same batch in one message
